@@ -77,20 +77,26 @@ def job_history(args):
                 outs.append({"skipped": "slot holds no registry"})
                 continue
 
-            def go(op=op, slot=slot):
-                structure = op["structure"] if (slot["tree"] or op["structure"] == "flat") else "flat"
+            forced = bool(op.get("force_nested")) and not slot["tree"] and op["structure"] == "nested"
+
+            def go(op=op, slot=slot, forced=forced):
+                structure = op["structure"] if (slot["tree"] or op["structure"] == "flat" or forced) else "flat"
                 return render(slot["reg"], op["options"], structure, op["framework"])
         if op.get("crash_at") is not None:
-            tr = CrashTracer(op["crash_at"], watch=("generate_code",))
+            tr = CrashTracer(op["crash_at"], watch=("generate_code",), relative_to=op.get("crash_in"))
             with tr:
                 o = outcome(go)
             if tr.fired:
                 probes["crash_fired"] += 1
-                if "generate_code" in tr.marks and op["crash_at"] > tr.marks["generate_code"]:
+                if "generate_code" in tr.marks and (op.get("crash_in") or op["crash_at"] > tr.marks["generate_code"]):
                     probes["crash_in_generate_code"] += 1
             o["lines"] = tr.count
         else:
             o = outcome(go)
+        if kind == "RENDER" and forced:
+            # nested layout of a non-tree graph is outside the judged domain: this call only perturbs the process
+            o = {"perturbation": True, "kind": next(iter(o))}
+            probes["forced_nested_perturbation"] = probes.get("forced_nested_perturbation", 0) + 1
         outs.append(o)
     return {"outcomes": outs, "probes": probes}
 
@@ -104,11 +110,20 @@ def make_history(seed, i, max_ops=4):
     n_ops = rng.randint(2, max_ops)
     n_slots = rng.choice([1, 1, 2, 2, 3])
     slot_w = {}
+    # a second slot sometimes shares (non-ASCII) field names with the first but differs in the unicode option
+    # (stale label caches); such histories render both slots
+    twin = n_slots >= 2 and rng.random() < 0.4
+    # targeted order: a crash inside generate_code of a nested render of a graph with shared sub-models (non-empty
+    # absolute-reference mapping, outside the judged domain -> perturbation), then judged renders of the same slot
+    crash_then_render = not twin and rng.random() < 0.15
     for s in range(n_slots):
-        w = gen_workload(seeds.derive(seed, PROP, i, "slot", s))
+        fixed = {"key_styles": ["unicode", "snake", "odd"]} if twin else {}
+        if crash_then_render and s == 0:
+            fixed = dict(structures=["nested"], p_nested=0.5, p_list_obj=0.25, n_shapes=rng.randint(3, 5), depth=3,
+                         p_variant=0.0, n_models=1, p_missing=0.0, width=rng.randint(2, 4))
+        w = gen_workload(seeds.derive(seed, PROP, i, "slot", s), **fixed)
         slot_w[s] = w
-    # a second slot sometimes shares field names with the first but differs in the unicode option (stale label caches)
-    if n_slots >= 2 and rng.random() < 0.4:
+    if twin:
         slot_w[1] = copy.deepcopy(slot_w[0])
         slot_w[1]["options"]["convert_unicode"] = not slot_w[0]["options"]["convert_unicode"]
     ops = []
@@ -130,6 +145,8 @@ def make_history(seed, i, max_ops=4):
               "options": o}
         if crash:
             op["crash_at"] = rng.choice([1, 3, 10, 30, 60, 100, 200, 400, 800, 1500, 4000])
+        if op["structure"] == "nested" and rng.random() < 0.5:
+            op["force_nested"] = True  # on a non-tree slot: un-judged perturbation (see job_history)
         return op
 
     def cli_op():
@@ -141,6 +158,14 @@ def make_history(seed, i, max_ops=4):
     # first op is a GEN so that there is something to work on
     ops.append(gen_op(0))
     generated.append(0)
+    if crash_then_render:
+        bad = render_op(0, crash=True)
+        bad.update(structure="nested", force_nested=True, crash_in="generate_code",
+                   crash_at=rng.choice([1, 2, 5, 10, 20, 40, 80, 150, 300, 600]))
+        ops += [bad, dict(render_op(0), structure="flat")]
+    if twin and n_ops >= 4:
+        ops += [render_op(0), gen_op(1), render_op(1)]
+        generated.append(1)
     while len(ops) < n_ops:
         r = rng.random()
         if r < 0.12:
@@ -169,7 +194,7 @@ def judged_indices(ops, outcomes):
             elif "crash" in o or "exc" in o:
                 pass  # slot keeps its previous registry (infer assigns the slot only on success)
         elif op["op"] == "RENDER":
-            if "skipped" in o:
+            if "skipped" in o or "perturbation" in o:
                 continue
             if "crash" not in o and op["slot"] in last_gen:
                 out.append((i, last_gen[op["slot"]]))
@@ -294,7 +319,8 @@ def run(ctx):
     histories = [make_history(ctx.seed, i, max_ops=(4 if (quick or i % 3) else 6)) for i in range(n)]
     distinct, samples = set(), []
     stats = {"judged_ops": 0, "histories_with_crash": 0, "histories_with_cli": 0, "render_twice_same_slot": 0,
-             "crash_fired": 0, "crash_in_generate_code": 0, "two_frameworks_same_slot": 0, "nonempty_mapping": 0,
+             "crash_fired": 0, "crash_in_generate_code": 0, "two_frameworks_same_slot": 0,
+             "forced_nested_perturbation": 0, "twin_slots_unicode_flip": 0,
              "op_kinds": {}}
     with Pool(ctx.jobs, instrument=True) as pool:
         res, verdicts = evaluate(pool, histories)
@@ -304,6 +330,9 @@ def run(ctx):
             stats["histories_with_cli"] += any(o["op"] == "CLI" for o in h)
             stats["crash_fired"] += r["probes"]["crash_fired"]
             stats["crash_in_generate_code"] += r["probes"]["crash_in_generate_code"]
+            stats["forced_nested_perturbation"] += r["probes"].get("forced_nested_perturbation", 0)
+            gens = [o for o in h if o["op"] == "GEN"]
+            stats["twin_slots_unicode_flip"] += any(a["models"] == b["models"] and a["slot"] != b["slot"] for a in gens for b in gens)
             rs = [o for o in h if o["op"] == "RENDER"]
             stats["render_twice_same_slot"] += len({o["slot"] for o in rs}) < len(rs)
             stats["two_frameworks_same_slot"] += any(a["slot"] == b["slot"] and a["framework"] != b["framework"]
@@ -350,9 +379,9 @@ def run(ctx):
         "histories": len(histories), "reach_probes": stats, "reach_warnings": warn,
         "fault_kinds": {"injected_crash_fired": stats["crash_fired"], "cli_perturbation": stats["histories_with_cli"]},
         "simulated_time": "one simulated clock read per CLI perturbation; irrelevant to this property",
-        "note": "nested layout is only used on tree-shaped graphs (the property's own domain), so the absolute-reference "
-                "mapping is always empty here; a context not restored after an exception is not observable through "
-                "outputs in this domain (see C15 / DESIGN.md 4.3)",
+        "note": "judged calls use nested layout only on tree-shaped graphs (the property's own domain); nested renders of "
+                "non-tree graphs (possibly crashing) are issued as un-judged perturbations, so that state they leave "
+                "behind (e.g. an un-restored reference context) is observable through later judged calls",
     }, assumptions=[
         "both sides run under identity set order, so a difference can only come from state carried through the process",
         "a crashed call's own outcome is not compared; everything after it is",
